@@ -13,7 +13,7 @@ Prints one JSON object.
 import json, os, re, shutil, subprocess, sys
 
 ROOT = os.path.dirname(os.path.dirname(os.path.abspath(__file__)))
-WT = "/root/scratch/seedtest"
+WT = os.environ.get("TRYSEED_WT", "/root/scratch/seedtest")
 ENV = dict(os.environ, GOFLAGS="-mod=mod", GOPROXY="off", GOSUMDB="off", GOTOOLCHAIN="local")
 
 
